@@ -257,17 +257,21 @@ func (r *recEnv) Iterate(ctx env.CallContext, minKey []byte, maxKey []byte, f fu
 	op := fmt.Sprintf("iter %d %s %s", r.c(ctx), hx0(minKey), hx0(maxKey))
 	r.t.add(op, "ok")
 	defer r.t.guard("item")
+	stopped := false
 	r.in.Iterate(ctx, minKey, maxKey, func(k, v []byte) bool {
 		r.t.add("item", "kv "+hx0(k)+" "+hx0(v))
 		stop := f(k, v)
 		if stop {
+			stopped = true
 			r.t.add("itret stop", "ok")
 		} else {
 			r.t.add("itret go", "ok")
 		}
 		return stop
 	})
-	r.t.add("item", "done")
+	if !stopped {
+		r.t.add("item", "done")
+	}
 }
 
 // ---------------------------------------------------------------------------------------------- wasm
